@@ -151,11 +151,18 @@ def scan_loops(ctext):
     return {k: v for k, v in loops.items() if not isinstance(k, tuple)}
 
 
+NOCHECK_PUSH = '#pragma CPROVER check push\n' + ''.join('#pragma CPROVER check disable "%s"\n' % c for c in (
+    'bounds', 'pointer', 'signed-overflow', 'unsigned-overflow', 'conversion', 'undefined-shift', 'pointer-overflow',
+    'pointer-primitive', 'div-by-zero'))
+NOCHECK_POP = '\n#pragma CPROVER check pop\n'
+
+
 def harness_for(meta, ob):
     """auto-generated harness: call the enforced function with unconstrained arguments (the contract's requires
     clause constrains them), then a canary that must be reachable"""
     if ob.harness is not None:
-        return ob.harness
+        # the harness text is ours: CBMC's automatic checks stay on in the repository's functions only
+        return NOCHECK_PUSH + ob.harness + NOCHECK_POP
     f = meta['funcs'].get(ob.enforce)
     if f is None:
         raise KeyError(ob.enforce)
